@@ -41,6 +41,10 @@ type frameCase struct {
 	FloodKind string   `json:"flood_kind,omitempty"`
 	Frames    []string `json:"frames_hex"`
 	Note      string   `json:"note,omitempty"`
+	// ProbeTrailer: link-layer bytes behind the IP datagram of the final well-formed
+	// probe. -1: a short probe padded to the Ethernet minimum of 60 bytes (what arrives
+	// over a real Ethernet), k > 0: k trailer bytes, 0: the frame ends with the datagram.
+	ProbeTrailer int `json:"probe_trailer,omitempty"`
 }
 
 var (
@@ -90,14 +94,17 @@ var probeMu sync.Mutex
 
 // probe returns a well-formed UDP datagram to an undecoded port and the predicate that
 // recognises its event.
-func probe(l cl.Local) ([]byte, func([]cl.Ev) bool) {
+func probe(l cl.Local, trailer int) ([]byte, func([]cl.Ev) bool) {
 	probeMu.Lock()
 	probeSeq++
 	n := probeSeq
 	probeMu.Unlock()
 	token := []byte(fmt.Sprintf("verif-probe-%08d", n))
+	if trailer < 0 {
+		token = []byte(fmt.Sprintf("vp%08d", n)) // a 52-byte frame, padded to 60
+	}
 	sport := uint16(20000 + n%40000)
-	f := l.UDPFrame(prober, sport, 7777, token)
+	f := cl.Trailer(l.UDPFrame(prober, sport, 7777, token), trailer, byte(n))
 	want := hex.EncodeToString(token)
 	return f, func(evs []cl.Ev) bool {
 		for _, e := range evs {
@@ -154,14 +161,30 @@ func runCase(l cl.Local, c frameCase, wait time.Duration) (err error, infra erro
 		}
 		frames = append(frames, b)
 	}
+	if c.ProbeTrailer != 0 {
+		err := feedFramed(l, ch, k, frames, wait, c.ProbeTrailer)
+		if err != nil {
+			what := fmt.Sprintf("followed by %d link-layer trailer bytes", c.ProbeTrailer)
+			if c.ProbeTrailer < 0 {
+				what = "in a 52-byte frame padded to the 60-byte Ethernet minimum"
+			}
+			err = fmt.Errorf("%v [the probe is a well-formed UDP datagram %s]", err, what)
+		}
+		return err, nil
+	}
 	return feed(l, ch, k, frames, wait), nil
 }
 
 // feed sends frames then a probe through k's real loop and returns the oracle's verdict.
 func feed(l cl.Local, ch *cl.Child, k *cl.Canary, frames [][]byte, wait time.Duration) error {
+	return feedFramed(l, ch, k, frames, wait, 0)
+}
+
+// feedFramed is feed with the probe's link-layer framing given (see frameCase.ProbeTrailer).
+func feedFramed(l cl.Local, ch *cl.Child, k *cl.Canary, frames [][]byte, wait time.Duration, probeTrailer int) error {
 	t0 := time.Now()
 	serr := k.SendMany(frames)
-	pf, seen := probe(l)
+	pf, seen := probe(l, probeTrailer)
 	if serr == nil {
 		serr = k.Send(pf)
 	}
@@ -656,7 +679,94 @@ func boundaryFrames(l cl.Local) []labelled {
 	for _, n := range []int{64, 1472} {
 		add("icmp/echo", fmt.Sprintf("icmp echo len=%d", n), l.ICMPFrame(peer, 1, 2, pad(n, 3)))
 	}
+	out = append(out, trailerFrames(l)...)
 	return out
+}
+
+// trailerLens: link-layer trailer lengths behind the IP datagram (-1: padded to the
+// 60-byte Ethernet minimum).
+var trailerLens = []int{-1, 1, 2, 4, 6, 7, 18, 46, 300, 1400}
+
+// trailerFrames: F. link-layer framing - well-formed TCP / UDP / ICMP datagrams of
+// lengths around the padding boundary in frames that are longer than the datagram
+// (padded to the Ethernet minimum, arbitrary trailers).
+func trailerFrames(l cl.Local) []labelled {
+	var out []labelled
+	type inner struct {
+		what  string
+		frame []byte
+	}
+	var in []inner
+	for i, fl := range []byte{cl.SYN, cl.ACK, cl.PSH | cl.ACK, cl.FIN | cl.ACK, cl.RST} {
+		for _, n := range []int{0, 1, 5, 6, 7, 100} {
+			if n > 0 && fl&cl.ACK == 0 {
+				continue
+			}
+			in = append(in, inner{fmt.Sprintf("tcp flags=%#02x payload=%d", fl, n),
+				l.TCPFrame(peer, cl.TCPFields{Sport: uint16(7000 + i), Dport: 8080, Seq: 9, Ack: 1, DataOff: -1, Flags: fl, Payload: pad(n, 0x61)})})
+		}
+	}
+	in = append(in, inner{"tcp syn+mss", l.TCPFrame(peer, cl.TCPFields{Sport: 7010, Dport: 8080, Seq: 9, DataOff: -1, Flags: cl.SYN, Options: []byte{2, 4, 5, 0xb4}})})
+	for _, dport := range []uint16{7000, 53, 123, 161, 1900, 5060} {
+		for _, n := range []int{0, 1, 17, 18, 19, 100} {
+			in = append(in, inner{fmt.Sprintf("udp dport=%d payload=%d", dport, n), l.UDPFrame(peer, 4002, dport, pad(n, 0x30))})
+		}
+	}
+	for _, n := range []int{0, 1, 17, 18, 19, 64} {
+		in = append(in, inner{fmt.Sprintf("icmp echo payload=%d", n), l.ICMPFrame(peer, 3, 4, pad(n, 5))})
+	}
+	for _, it := range in {
+		for _, tr := range trailerLens {
+			f := cl.Trailer(it.frame, tr, 0xd0)
+			if len(f) == len(it.frame) || len(f) > 1600 {
+				continue
+			}
+			out = append(out, labelled{"trailer/" + strings.Fields(it.what)[0], fmt.Sprintf("trailer=%d %s", tr, it.what), f})
+		}
+	}
+	return out
+}
+
+// TestFramedProbes: the well-formed probe that must still yield its event arrives the
+// way frames arrive over a real Ethernet - padded to the 60-byte minimum - or with
+// other link-layer trailers, after nothing at all and after a history of frames with
+// trailers.
+func TestFramedProbes(t *testing.T) {
+	r := vlib.Open(prop)
+	if replayed(t, r, "TestFramedProbes") {
+		return
+	}
+	l := env(t)
+	r.Rule(ruleText)
+	var history [][]byte
+	for _, it := range trailerFrames(l) {
+		history = append(history, it.frame)
+	}
+	si, sn := r.Shard()
+	seen := map[string]bool{}
+	idx := 0
+	for _, tr := range trailerLens {
+		for _, hist := range [][][]byte{nil, history} {
+			idx++
+			if idx%sn != si || len(seen) > 0 { // a failing case costs minutes: one report per shard
+				continue
+			}
+			c := frameCase{Tables: "arp", Frames: hexes(hist), ProbeTrailer: tr}
+			r.Case(fmt.Sprintf("framed-probe/trailer=%d", tr), fmt.Sprintf("framed probe trailer=%d history=%d", tr, len(hist)), func() interface{} {
+				return map[string]interface{}{"probe_trailer": tr, "history_frames": len(hist)}
+			})
+			err, infra := confirm(r, l, c, 20*time.Second)
+			if infra != nil {
+				t.Fatalf("infra: %v", infra)
+			}
+			if err != nil {
+				if sig := signature(err.Error()); !seen[sig] && len(seen) < 3 {
+					seen[sig] = true
+					r.Violation(t, "TestFramedProbes", c, err.Error())
+				}
+			}
+		}
+	}
 }
 
 func pseudoHdr(src, dst cl.IP4, n int) []byte {
@@ -670,7 +780,7 @@ func pseudoHdr(src, dst cl.IP4, n int) []byte {
 
 const ruleText = "frames of 14..1600 bytes through the real Start() loop in a child (socketpair hook), then a well-formed UDP probe whose event must arrive with the child alive. " +
 	"Frame classes: ethertypes x payload sizes; ARP well-formed/truncated/size fields; IPv4 IHL 0..15 x total length {0,19,20,21,hdr+-1,actual+-1,65535} x protocol {1,2,6,17,47,255} x bytes after the header; version, fragment and option variants; " +
-	"TCP segment length 0..100 x data offset 0..15 x 11 flag sets x good/bad checksum; TCP option areas (structural classes for 4/8/12/40-byte areas; every 1- and 2-byte layout, every 3-byte layout in the thorough tier); UDP length field vs actual x decoded/undecoded ports and payload shapes; ICMP 0..9 bytes x types; rapid-drawn random and mutated frames; " +
+	"TCP segment length 0..100 x data offset 0..15 x 11 flag sets x good/bad checksum; TCP option areas (structural classes for 4/8/12/40-byte areas; every 1- and 2-byte layout, every 3-byte layout in the thorough tier); UDP length field vs actual x decoded/undecoded ports and payload shapes; ICMP 0..9 bytes x types; link-layer framing: well-formed TCP / UDP / ICMP datagrams around the padding boundary in frames padded to the 60-byte Ethernet minimum or followed by trailers of 1/2/4/6/7/18/46/300/1400 bytes, and the final probe itself padded to 60 bytes or followed by such a trailer (after no history and after the trailer frames); rapid-drawn random and mutated frames; " +
 	"SYN floods up to 70,000 half-open connections; ARP/route tables with and without an entry for the peer. non-trivial = the frame passes ethernet and IPv4 parsing far enough to name an L3/L4 header field class (distinct by field-class tuple); histories distinct by (tables, history kind)"
 
 func TestFrames(t *testing.T) {
